@@ -254,6 +254,36 @@ def order_family():
     return out
 
 
+def self_reference_family(twin=False):
+    """Deterministic (seed-independent): for every binding construct, a use of the bound name INSIDE
+    the expression that defines / is matched by the binding (it is not in scope there: `let a = a + 1`,
+    `if let S(v) = f(v)`, `match g(b) { S(b) -> .. }`, a lambda parameter used in a sibling argument),
+    each with a control in which the same position legitimately resolves to an OUTER binding of a
+    different name.  Through the ssa tie (Model/Scope.lean vs ssa_analysis.rs) and, with `twin=True`
+    (the binder and the uses it binds consistently renamed to a fresh name; the out-of-scope
+    occurrence is not bound by it and keeps its name), through the rename-local oracle: original and
+    twin must get the same verdict from the real checker."""
+    prelude = "class Opt(N, S(int)) {\n  function of(x: int): Opt = Opt.S(x)\n  function id(o: Opt): Opt = o\n  function ap(f: (int) -> int, x: int): int = f(x)\n}\n"
+    bodies = [
+        ("iflet-scrutinee-self", "v", "function f(): int = if let S(B) = Opt.id(v) { B } else { 0 }"),
+        ("iflet-scrutinee-outer", "v", "function f(w: Opt): int = if let S(B) = Opt.id(w) { B } else { 0 }"),
+        ("iflet-scrutinee-self-nested", "v", "function f(w: Opt): int = if let S(B) = Opt.id(if let S(u) = w { Opt.S(v + u) } else { w }) { B } else { 0 }"),
+        ("iflet-else-self", "v", "function f(w: Opt): int = if let S(B) = w { B } else { v }"),
+        ("let-init-self", "a", "function f(): int = {\n    let B = a + 1;\n    B\n  }"),
+        ("let-init-outer", "a", "function f(b: int): int = {\n    let B = b + 1;\n    B\n  }"),
+        ("let-init-later", "c", "function f(): int = {\n    let a = c + 1;\n    let B = 2;\n    a + B\n  }"),
+        ("match-scrutinee-self", "b", "function f(): int = match Opt.id(b) {\n    N -> 0,\n    S(B) -> B,\n  }"),
+        ("match-scrutinee-outer", "b", "function f(w: Opt): int = match Opt.id(w) {\n    N -> 0,\n    S(B) -> B,\n  }"),
+        ("match-arm-sibling", "b", "function f(w: Opt): int = match w {\n    N -> b,\n    S(B) -> B,\n  }"),
+        ("lambda-param-sibling-arg", "x", "function f(): int = Opt.ap((B) -> B + 1, x)"),
+        ("lambda-param-outer", "x", "function f(y: int): int = Opt.ap((B) -> B + y, y)"),
+        ("tuple-pattern-self", "p", "function f(): int = {\n    let (B, q) = (p, 1);\n    B + q\n  }"),
+        ("iflet-in-let-self", "r", "function f(w: Opt): int = {\n    let B = if let S(r) = w { r } else { 0 };\n    B\n  }"),
+    ]
+    return [(name, prelude + "class Main {\n  " + body.replace("B", ("z" + nm + "q") if twin else nm) + "\n  function main(): unit = Process.println(\"m\")\n}\n")
+            for name, nm, body in bodies]
+
+
 def matches_finding(ctx, kind, detail):
     for f in ctx.open_findings:
         sig = f.get("signature", "")
@@ -355,6 +385,7 @@ def run(ctx):
         texts.append(scopegen.render(p)["Main"])
     texts += [scopegen.render(q)["Main"] for p in scopegen.sibling_programs() for q in (p, p["unmerged"])]
     texts += [scopegen.render(p)["Main"] for p in order_family()]     # member-order family: also through the ssa tie and the parser walkers
+    texts += [t for _, t in self_reference_family()]
     base = list(texts)
     for t in base[: ctx.scale(120, 2000)]:
         texts += scope_mutants(rng, t)
@@ -455,6 +486,16 @@ def run(ctx):
     hist["programs"] = len(progs)
     hist["programs_deterministic_family"] = len(progs) - nrandom
     hist["programs_path_family"] = len(path_fam)
+    # ---------- binder used inside its own defining expression: original vs consistently renamed twin
+    sfo, sft = self_reference_family(), self_reference_family(twin=True)
+    sverd = run_impl_parallel(["check " + hexs(json.dumps({"Main": t})) for _, t in sfo + sft])
+    hist["self_reference_family_pairs"] = len(sfo)
+    for k, ((nm, t0), (_, t1)) in enumerate(zip(sfo, sft)):
+        v0, v1 = sverd[k], sverd[len(sfo) + k]
+        if v0.startswith("accepted") != v1.startswith("accepted") or v0.startswith("panic") or v1.startswith("panic"):
+            ctx.violation("consistently renaming a local binding changes the verdict (%s): original is %s, renamed twin is %s" % (nm, v0[:60], v1[:60]),
+                          {"rewrite": "rename-local", "case": nm, "original": {"Main": t0}, "rewritten": {"Main": t1},
+                           "verdict_original": v0, "verdict_rewritten": v1})
     # ---------- member order: every permutation of the members of a generic class
     ofam = order_family()
     overd = run_impl_parallel(["check " + hexs(json.dumps(scopegen.render(p))) for p in ofam])
